@@ -40,7 +40,8 @@ const (
 	fReplA     = "replaceA" // write temp file + rename over the config (atomic replace)
 	fReplB     = "replaceB"
 	fDelete    = "delete"
-	nNone      = "-" // no notification involved (only with fNone)
+	fWriteE    = "writeEmpty" // the file is truncated to zero length: present, with the empty content
+	nNone      = "-"          // no notification involved (only with fNone)
 	nDeliver   = "delivered"
 	nDrop      = "dropped"
 	nDup       = "duplicated"
@@ -94,6 +95,7 @@ type scenario struct {
 	Replace  bool   // use atomic replace instead of in-place writes
 	Faults   bool   // watcher-drop scenario: reduced notification alphabet + scripted re-creation
 	CbWrites bool   // the file changes while the callback is running
+	Empty    bool   // content alphabet {A, empty (zero-length file)} + absent
 	Advances []int
 }
 
@@ -114,6 +116,9 @@ func alphabet(sc scenario, thorough bool) []step {
 		writes = []string{fReplA, fReplB}
 	}
 	files := append(writes, fDelete)
+	if sc.Empty {
+		files = []string{fWriteA, fWriteE, fDelete}
+	}
 	if sc.Faults {
 		// the watcher is dropped by each of the three triggers x re-creation {succeeds, fails once,
 		// fails for the rest of the run}; file operations (notified or not) before / after
@@ -170,6 +175,9 @@ func readContent(path string) string {
 	b, err := os.ReadFile(path)
 	if err != nil {
 		return ""
+	}
+	if len(b) == 0 {
+		return "<empty>" // a present file of zero length is a content of its own, not "absent"
 	}
 	return string(b)
 }
@@ -271,6 +279,9 @@ func runHistory(t *testing.T, sc scenario, h []step) (out bfs.Outcome) {
 				_ = os.WriteFile(tmp, []byte(c), 0o600)
 				_ = os.Rename(tmp, path)
 				e = fileEvent(fsnotify.Create)
+			case fWriteE:
+				_ = os.WriteFile(path, nil, 0o600)
+				e = fileEvent(fsnotify.Write)
 			case fDelete:
 				_ = os.Remove(path)
 				e = fileEvent(fsnotify.Remove)
@@ -397,6 +408,7 @@ var scenarios = []scenario{
 	{Name: "callback-rejects", Initial: "A", CbErr: true, Advances: []int{1, debounceMs - 1, tickMs + 1}},
 	{Name: "atomic-replace", Initial: "A", Replace: true, Advances: []int{1, debounceMs - 1, tickMs + 1}},
 	{Name: "watcher-dropped", Initial: "A", Faults: true, Advances: []int{1, debounceMs + 1, tickMs + 1}},
+	{Name: "empty-content", Initial: "A", Empty: true, Advances: []int{1, debounceMs + 1, tickMs + 1}},
 	{Name: "changed-during-callback", Initial: "A", CbWrites: true, Advances: []int{1, debounceMs + 1, tickMs + 1}},
 }
 
